@@ -19,6 +19,9 @@ ROOT = os.path.dirname(os.path.dirname(os.path.abspath(__file__)))
 SPEC = os.path.join(ROOT, "spec")
 HARNESS = os.path.join(ROOT, "harness")
 WORK = os.path.join(ROOT, "work")
+# agents developing in parallel may point VERIF_TARGET at a private cargo
+# target directory; registered checks use harness/target
+TARGET = os.environ.get("VERIF_TARGET") or os.path.join(HARNESS, "target")
 REPLAYS = os.path.join(ROOT, "replays")
 EVIDENCE = os.path.join(ROOT, "evidence")
 KNOWN = os.path.join(ROOT, "known_findings.json")
@@ -123,20 +126,21 @@ class Ctx:
             cmd += ["--bin", b]
         env = dict(os.environ)
         env["CARGO_NET_OFFLINE"] = "true"
+        env["CARGO_TARGET_DIR"] = TARGET
         p = subprocess.run(cmd, cwd=HARNESS, env=env, stdout=subprocess.PIPE,
                            stderr=subprocess.STDOUT, text=True)
         if p.returncode != 0:
             sys.stdout.write(p.stdout[-6000:])
             raise ToolError("harness build failed")
         self.stage("build", {"bins": list(bins), "wall_s": round(time.time() - t, 1)})
-        return [os.path.join(HARNESS, "target", "release", b) for b in bins]
+        return [os.path.join(TARGET, "release", b) for b in bins]
 
     def bin(self, name):
-        return os.path.join(HARNESS, "target", "release", name)
+        return os.path.join(TARGET, "release", name)
 
     # ------------------------------------------------------------------- TLC
     def tlc(self, module, cfg=None, *, workers=8, simulate=None, depth=None,
-            env=None, timeout=1800, coverage=True, deque=False, xmx="8g",
+            env=None, timeout=1800, coverage=True, deque=False, xmx="6g",
             label=None, expect_violation=None, count=True, seed=None,
             extra=None, cases_to=None):
         """Run TLC on spec/<module>.tla with spec/<cfg>.cfg.
